@@ -249,8 +249,14 @@ func checkC08(c *Ctx, w *World) {
 			continue
 		}
 		np++
-		isV := func(v ssa.Value) bool { x, ok := stripConv(v).(*ssa.Extract); return ok && x.Tuple == nx && x.Index == 2 }
-		isK := func(v ssa.Value) bool { x, ok := stripConv(v).(*ssa.Extract); return ok && x.Tuple == nx && x.Index == 1 }
+		isV := func(v ssa.Value) bool {
+			x, ok := stripConv(v).(*ssa.Extract)
+			return ok && x.Tuple == nx && x.Index == 2
+		}
+		isK := func(v ssa.Value) bool {
+			x, ok := stripConv(v).(*ssa.Extract)
+			return ok && x.Tuple == nx && x.Index == 1
+		}
 		homeOfK := func(v ssa.Value) bool {
 			l, ok := stripConv(v).(*ssa.Lookup)
 			return ok && isLoadOf(l.X, "gcpBalancer.affinityMap") && isK(l.Index)
